@@ -11,6 +11,8 @@ class Module(object):
     def __init__(self, rel):
         self.rel = rel
         path = os.path.join(REPO, rel)
+        if rel.startswith('verif:'):
+            path = os.path.join(os.path.dirname(os.path.dirname(os.path.abspath(__file__))), rel[6:])
         self.raw = open(path).read()
         self.extraction_log = None
         if rel.endswith('.pyx'):
